@@ -69,6 +69,13 @@ def _admissible(nodes, m):
     if m >= xs[-1]:
         out.append(para(n - 2))
         return out
+    if m < xs[0]:
+        # below a table that does not start at Mach 0 the statement names no interpolant: the first interval's line
+        # continued, the first parabola continued, or the first entry held are all accepted
+        out.append((ref.line2(m, nodes[0], nodes[1]), 1e-12, "line(0,1)"))
+        out.append(para(1))
+        out.append((nodes[0][1], 1e-12, "first-entry"))
+        return out
     # interval j: xs[j] <= m < xs[j+1]
     j = max(i for i in range(n - 1) if xs[i] <= m)
     if j >= 1:
@@ -95,8 +102,8 @@ def _check_queries(r, tag, nodes, bc, calc, queries, node_idx=()):
         worst = max(worst, min(abs(cd - v) / max(abs(v), 1e-3) for v, s, _ in adm))
         if not e <= 1e-9:
             xs = [p[0] for p in nodes]
-            where = "beyond-last" if m >= xs[-1] else ("node" if m in xs else "interior")
-            j = max(i for i in range(len(xs)) if xs[i] <= m)
+            where = "beyond-last" if m >= xs[-1] else ("node" if m in xs else "below-first" if m < xs[0] else "interior")
+            j = max([i for i in range(len(xs)) if xs[i] <= m], default=0)
             pos = "last-interval" if j >= len(xs) - 2 else ("first-interval" if j == 0 else "middle")
             r.bad(f"C09:{tag}:interpolation:{where}:{pos}",
                   f"Mach {m!r}: solver Cd {cd!r}, admissible {[(nm, v) for v, s, nm in adm]}", mach=m, interval=j)
@@ -189,11 +196,13 @@ def _custom(draw):
         nodes.append([x, draw(st.floats(0.05, 2.0))])
     qs = []
     for _ in range(12):
-        kind = draw(st.sampled_from(["node", "mid", "frac", "side", "beyond"]))
+        kind = draw(st.sampled_from(["node", "mid", "frac", "side", "beyond"] + (["below"] if nodes[0][0] > 0 else [])))
         j = draw(st.integers(0, n - 2))
         gap = nodes[j + 1][0] - nodes[j][0]
         if kind == "node":
             qs.append(nodes[draw(st.integers(0, n - 1))][0])
+        elif kind == "below":
+            qs.append(nodes[0][0] * draw(st.one_of(st.floats(0.0, 1.0, exclude_max=True), st.sampled_from([0.0, 0.5, 0.999999]))))
         elif kind == "mid":
             qs.append(nodes[j][0] + gap * draw(st.sampled_from([0.4999, 0.5, 0.5001])))
         elif kind == "frac":
@@ -221,6 +230,8 @@ def check_custom(case):
     dm = pb.DragModel(bc, table)
     calc, shot = _calc_for(dm)
     r.label(f"nodes:{'3' if len(nodes) == 3 else '4-6' if len(nodes) <= 6 else '7+'}")
+    if any(m < nodes[0][0] for m in case["queries"]):
+        r.label("query-below-first-node")
     worst = _check_queries(r, "custom", nodes, bc, calc, case["queries"], node_idx=range(len(nodes)))
     r.target = worst
     kk = calc._calc.drag_by_mach(nodes[0][0]) * bc / nodes[0][1]
